@@ -18,6 +18,7 @@ import (
 	"strconv"
 	"strings"
 	"syscall"
+	"time"
 	"unicode/utf8"
 
 	"golang.org/x/text/unicode/norm"
@@ -47,6 +48,7 @@ type Node struct {
 	Target   string
 	Typ      uint32 // st_mode & S_IFMT for 'O'
 	Mount    bool   // generator: make this directory a tmpfs mount point
+	Bind     string // generator: bind-mount this procfs/sysfs file over the (regular) file: its st_size is not what a read returns
 }
 
 // Child is a directory entry; Name holds the raw bytes of the name.
@@ -117,6 +119,13 @@ func Materialize(path string, n *Node) error {
 	case 'F':
 		if err := os.WriteFile(path, n.Content, 0o600); err != nil {
 			return err
+		}
+		if n.Bind != "" {
+			if err := syscall.Mount(n.Bind, path, "", syscall.MS_BIND, ""); err != nil {
+				return fmt.Errorf("bind mount: %w", err)
+			}
+			mounts = append(mounts, path)
+			return nil
 		}
 		if err := os.Chmod(path, os.FileMode(n.Perm&0o777)|specialBits(n.Perm)); err != nil {
 			return err
@@ -522,8 +531,29 @@ func RootDevice(root string) uint64 {
 	return uint64(st.Dev)
 }
 
-// Scan runs the real core.Scan with the given probed behaviours.
-func Scan(root string, cfg *Cfg, px, du bool, prev *Prev) (res *Result) {
+// Hung is set when a scan did not return within the watchdog period (a
+// non-terminating loop in the code under test); drivers stop generating then.
+var Hung bool
+
+// Scan runs the real core.Scan with the given probed behaviours, under a
+// watchdog: a scan that does not return within 60 s is reported as a panic
+// ("hang") and abandoned.
+func Scan(root string, cfg *Cfg, px, du bool, prev *Prev) *Result {
+	if Hung {
+		return &Result{Panic: "hang (earlier scan never returned)"}
+	}
+	done := make(chan *Result, 1)
+	go func() { done <- scan(root, cfg, px, du, prev) }()
+	select {
+	case r := <-done:
+		return r
+	case <-time.After(60 * time.Second):
+		Hung = true
+		return &Result{Panic: "hang: core.Scan did not return within 60 s"}
+	}
+}
+
+func scan(root string, cfg *Cfg, px, du bool, prev *Prev) (res *Result) {
 	dev := RootDevice(root)
 	core.VerifC12SetBehavior(dev, px, du)
 	defer core.VerifC12ClearBehavior(dev)
